@@ -979,6 +979,27 @@ class Solver:
                             add(otherwise, {s})
                     return
         e2 = strip_refs(e)
+        while e2[0] == "cast" and e2[1] == "IntToInt":
+            e2 = strip_refs(e2[2])
+        tagread = False
+        if e2[0] == "call" and callee_name(body.term(e2[1])) == "repr::Repr::last_byte" and body.term(e2[1])["args"]:
+            tagread = self.canon(body, tracked, body.origin_operand(body.term(e2[1])["args"][0])) == "self"
+        if tagread and t["discr_ty"] in ("u8", "usize", "u32", "u64"):
+            # `match self.last_byte() { HEAP_MARKER => .., STATIC_MARKER => .., _ => .. }`
+            hm, sm = self.heap_marker, self.static_marker
+            for s in cur:
+                lo, hi = {"H": (hm, hm), "S": (sm, sm), "I": (0, hm - 1), "U": (0, 255)}[s.kind]
+                vals = {v for v, _ in arms}
+                for av, ab in arms:
+                    if lo <= av <= hi:
+                        add(ab, {s._replace(kind=("H" if av == hm else "S" if av == sm else "I")) if s.kind == "U" else s})
+                if any(x not in vals for x in range(lo, hi + 1)):
+                    rest = s
+                    if s.kind == "U" and hm in vals and sm in vals:
+                        rest = s._replace(kind="I")
+                    add(otherwise, {rest})
+            return
+        e2 = strip_refs(e)
         if e2[0] == "call" and t["discr_ty"] in ("usize", "u64", "u32"):
             ct = body.term(e2[1])
             cn = callee_name(ct)
